@@ -320,6 +320,7 @@ namespace
             bool any = false;
             int64_t mind = 0;
             uint64_t sh = 0xC16;
+            int coarse[4 + A_COUNT] = {0};
             for (int i = 0; i < NT; i++)
             {
                 bool p = tim[i]->is_planned();
@@ -331,8 +332,19 @@ namespace
                 if (planned[i] && (!any || deadline(i) < mind))
                     mind = deadline(i);
                 any |= planned[i];
-                sh = vf::mix(sh, planned[i] ? (uint64_t)((deadline(i) - now) * 8 + interval[i]) : 0x77);
-                sh = vf::mix(sh, (uint64_t)action[i]);
+                // scheduler state: per timer {unplanned | rank of its deadline among the pending ones (ties share a rank)},
+                // whether it lies in the past, and its scripted action
+                int rank = 0;
+                for (int j = 0; j < NT; j++)
+                    if (planned[i] && planned[j] && deadline(j) < deadline(i))
+                        rank++;
+                if (NT <= 3)
+                {
+                    sh = vf::mix(sh, planned[i] ? (uint64_t)(rank * 4 + (deadline(i) - now <= interval[i] ? 1 : 0) + (deadline(i) - now <= 1 ? 2 : 0)) : 0x77);
+                    sh = vf::mix(sh, (uint64_t)action[i]);
+                }
+                else if (planned[i])
+                    coarse[rank < 3 ? rank : 3]++, coarse[4 + action[i]]++; // larger worlds: histogram of ranks and of pending actions
             }
             VF_OK("pending set (is_planned of every timer) == reference");
             VF_OK("deadline (finish) of every pending timer == reference: re-armed at exactly previous deadline + interval");
@@ -348,7 +360,10 @@ namespace
                 VF_OK("minimal_interval(now) == time to the earliest reference deadline");
             }
             settle();
-            vf::state(sh);
+            if (NT > 3)
+                for (int c : coarse)
+                    sh = vf::mix(sh, (uint64_t)c);
+            vf::state(vf::mix(sh, (uint64_t)NT));
         }
         void teardown(uint64_t v)
         {
